@@ -2,8 +2,10 @@ package harness
 
 import (
 	"bytes"
+	"fmt"
 	"os"
 	"path/filepath"
+	"sync"
 	"testing"
 
 	"github.com/kelindar/column"
@@ -127,5 +129,151 @@ func TestC06(t *testing.T) {
 			mc.flag("log-file")
 		}
 		RecordCase("C06", mc.Desc(), nt && replayed > 0, mc.Labels()...)
+	})
+}
+
+// countingLogger counts what was emitted, per block.
+type countingLogger struct {
+	mu     sync.Mutex
+	blocks map[uint32]int
+	n      int
+}
+
+func (l *countingLogger) Append(c commit.Commit) error {
+	l.mu.Lock()
+	l.n++
+	l.blocks[uint32(c.Chunk)]++
+	l.mu.Unlock()
+	return nil
+}
+
+// TestC06Parallel: writers of different blocks commit with real parallelism; the
+// stream goes to a serialized commit.Log (memory or file). At quiescence the log
+// must decode into exactly the emitted commits (framing is verified with bounds
+// BEFORE anything is replayed) and a replica fed from it must equal the primary.
+func TestC06Parallel(t *testing.T) {
+	tmp := t.TempDir()
+	rapid.Check(t, func(t *rapid.T) {
+		blocks := rapid.IntRange(2, 4).Draw(t, "blocks")
+		txns := rapid.IntRange(50, 400).Draw(t, "txns")
+		useFile := rapid.Bool().Draw(t, "file")
+		counter := &countingLogger{blocks: map[uint32]int{}}
+		var mem bytes.Buffer
+		var log *commit.Log
+		name := filepath.Join(tmp, "par.log")
+		if useFile {
+			os.Remove(name)
+			var err error
+			if log, err = commit.OpenFile(name); err != nil {
+				t.Fatal(err)
+			}
+		} else {
+			log = commit.Open(&mem)
+		}
+		mk := func(w commit.Logger) *column.Collection {
+			c := column.NewCollection(column.Options{Capacity: 1024, Vacuum: 24 * 3600 * 1e9, Writer: w})
+			c.CreateColumn("n", column.ForInt())
+			c.CreateColumn("s", column.ForString())
+			return c
+		}
+		c := mk(multiLogger{counter, log})
+		defer c.Close()
+		n := (blocks-1)*16384 + 64
+		c.Query(func(txn *column.Txn) error {
+			for i := 0; i < n; i++ {
+				txn.Insert(func(r column.Row) error { return nil })
+			}
+			return nil
+		})
+		var wg sync.WaitGroup
+		for b := 0; b < blocks; b++ {
+			wg.Add(1)
+			go func(b int) {
+				defer wg.Done()
+				defer func() { recover() }()
+				for i := 0; i < txns; i++ {
+					row := uint32(b)<<14 + uint32(i%32)
+					c.QueryAt(row, func(r column.Row) error {
+						r.MergeInt("n", 1)
+						r.SetString("s", fmt.Sprintf("w%d-%d", b, i))
+						return nil
+					})
+				}
+			}(b)
+		}
+		wg.Wait()
+		if useFile {
+			log.Close()
+		}
+		// 1. framing: the log decodes into exactly the emitted commits, with sane fields
+		open := func() *commit.Log {
+			if useFile {
+				l, err := commit.OpenFile(name)
+				if err != nil {
+					t.Fatal(err)
+				}
+				return l
+			}
+			return commit.Open(bytes.NewReader(mem.Bytes()))
+		}
+		got := map[uint32]int{}
+		total := 0
+		src := open()
+		err, bad := guarded(func() error {
+			return src.Range(func(cm commit.Commit) error {
+				if uint32(cm.Chunk) >= uint32(blocks) || len(cm.Updates) > 8 || cm.ID == 0 {
+					return fmt.Errorf("commit #%d decoded from the log has block=%d buffers=%d id=%d: the stream is damaged", total, cm.Chunk, len(cm.Updates), cm.ID)
+				}
+				got[uint32(cm.Chunk)]++
+				total++
+				if total > counter.n+10 {
+					return fmt.Errorf("the log yields more commits than the %d emitted", counter.n)
+				}
+				return nil
+			})
+		})
+		if useFile {
+			src.Close()
+		}
+		if bad != "" || err != nil {
+			t.Fatalf("C06 violated (parallel writers into a serialized log, %d blocks): %s %v", blocks, bad, err)
+		}
+		for b, want := range counter.blocks {
+			if got[b] != want {
+				t.Fatalf("C06 violated (parallel writers into a serialized log): %d commits were emitted for block %d, the log holds %d", want, b, got[b])
+			}
+		}
+		// 2. a replica fed from the log equals the primary
+		replica := mk(nil)
+		defer replica.Close()
+		src = open()
+		if rerr := src.Range(func(cm commit.Commit) error { return replica.Replay(cm) }); rerr != nil {
+			t.Fatalf("C06 violated: replaying the serialized log: %v", rerr)
+		}
+		if useFile {
+			src.Close()
+		}
+		dump := func(col *column.Collection) map[uint32]string {
+			out := map[uint32]string{}
+			col.Query(func(txn *column.Txn) error {
+				nn, ss := txn.Int("n"), txn.String("s")
+				return txn.Range(func(idx uint32) {
+					a, okA := nn.Get()
+					b, okB := ss.Get()
+					out[idx] = fmt.Sprintf("%d,%v,%q,%v", a, okA, b, okB)
+				})
+			})
+			return out
+		}
+		p, r := dump(c), dump(replica)
+		if len(p) != len(r) || c.Count() != replica.Count() {
+			t.Fatalf("C06 violated: primary has %d rows (Count %d), the replica fed from the log %d (Count %d)", len(p), c.Count(), len(r), replica.Count())
+		}
+		for off, v := range p {
+			if r[off] != v {
+				t.Fatalf("C06 violated: row %d: primary %s, replica fed from the serialized log %s", off, v, r[off])
+			}
+		}
+		RecordCase("C06", fmt.Sprintf("parallel log: blocks=%d txns=%d file=%v commits=%d", blocks, txns, useFile, counter.n), true, "parallel-writers-serialized-log")
 	})
 }
